@@ -101,6 +101,7 @@ fn guard<T>(f: impl FnOnce() -> T) -> Result<T, (String, String)> {
                     }
                 }
             };
+            let site = report::stable_site(&site);
             Err((site, msg))
         }
     }
